@@ -582,3 +582,231 @@ def _join_evaluated(ex, st, base, parts):
 
 
 _METHODS[("str", "join")] = (_m_join2, "")
+
+
+# ------------------------------------------------------------------------------------------------------------
+# String-keyed records (python dicts used as records, C20): `rec` values live in the environment field by field,
+# under "<name>[<literal key>]".  Only literal keys are tracked; a store under a computed key is assumed not to
+# hit a tracked key (stated assumption) and is otherwise ignored.
+class TRec(TPy):
+    def __init__(self):
+        TPy.__init__(self, "rec")
+
+    def make_param(self, ex, st, name):
+        return SV(self, py={"name": name})
+
+
+REC = TRec()
+from . import types as _types2  # noqa: E402
+_prev_parse = _types2.parse_type
+
+
+def _parse_type_rec(s):
+    if s.strip() == "rec":
+        return REC
+    return _prev_parse(s)
+
+
+_types2.parse_type = _parse_type_rec
+_engine.parse_type = _parse_type_rec
+import pyvc.lib as _libmod  # noqa: E402
+_libmod.parse_type = _parse_type_rec
+try:
+    import pyvc.libbio as _lb  # noqa: E402
+    _lb.parse_type2 = _parse_type_rec
+except Exception:
+    pass
+
+
+def _rec_key(node):
+    if isinstance(node, ast.Constant) and isinstance(node.value, str):
+        return node.value
+    return None
+
+
+_orig_ev_subscript = _engine.Exec.ev_Subscript
+
+
+def _ev_subscript_rec(self, st, node):
+    if isinstance(node.value, ast.Name) and node.value.id in st.env and st.env[node.value.id].t is REC:
+        k = _rec_key(node.slice)
+        if k is None:
+            raise Unsupported("record read under a computed key")
+        full = "%s[%s]" % (st.env[node.value.id].py["name"], k)
+        if full not in st.env:
+            raise Unsupported("record field %s is not tracked" % full)
+        return st.env[full]
+    return _orig_ev_subscript(self, st, node)
+
+
+_engine.Exec.ev_Subscript = _ev_subscript_rec
+
+_orig_assign_to = _engine.Exec.assign_to
+
+
+def _assign_to_rec(self, st, target, val, node):
+    if isinstance(target, ast.Subscript) and isinstance(target.value, ast.Name) and \
+            target.value.id in st.env and st.env[target.value.id].t is REC:
+        k = _rec_key(target.slice)
+        name = st.env[target.value.id].py["name"]
+        if k is None:
+            self.used_lib.add("record store under a computed key does not overwrite a tracked (reserved) key")
+            self.ev(st, target.slice)
+            return
+        full = "%s[%s]" % (name, k)
+        if full in self.c.locals:
+            val = self.coerce_decl(st, val, _parse_type_rec(self.c.locals[full]))
+        st.env[full] = val
+        return
+    if isinstance(target, ast.Name) and val.t is REC and val.py["name"] != target.id:
+        # copy of a record: the tracked fields are copied (values are immutable under the encoding)
+        src = val.py["name"]
+        for key in [k_ for k_ in list(st.env) if k_.startswith(src + "[")]:
+            st.env[target.id + key[len(src):]] = st.env[key]
+        st.env[target.id] = SV(REC, py={"name": target.id})
+        return
+    return _orig_assign_to(self, st, target, val, node)
+
+
+_engine.Exec.assign_to = _assign_to_rec
+
+
+@method("py:rec", "copy", stmt="")
+def _rec_copy(ex, st, base, node, basenode):
+    return base
+
+
+_orig_rebind = None
+from . import libnp as _libnp  # noqa: E402
+_orig_rebind = _libnp._rebind
+
+
+def _rebind_rec(ex, st, basenode, new):
+    if isinstance(basenode, ast.Subscript) and isinstance(basenode.value, ast.Name) and \
+            basenode.value.id in st.env and st.env[basenode.value.id].t is REC:
+        k = _rec_key(basenode.slice)
+        if k is None:
+            raise Unsupported("mutation of a record field under a computed key")
+        st.env["%s[%s]" % (st.env[basenode.value.id].py["name"], k)] = new
+        return
+    return _orig_rebind(ex, st, basenode, new)
+
+
+_libnp._rebind = _rebind_rec
+
+# XML elements ------------------------------------------------------------------------------------------------
+ELEM = TAbs("Elem")
+
+
+def b_attr(self, ex, st, node):
+    """spec: attr(elem, name) -> opt[str]"""
+    e, n = ex.ev(st, node.args[0]), ex.ev(st, node.args[1])
+    t = TOptT(STR)
+    return SV(t, ex.uf("xml_attr", ELEM.sort(), STR.sort(), t.sort())(e.z, n.z))
+
+
+def b_first_token(self, ex, st, node):
+    """spec: first_token(s) = s.split(' ')[0]"""
+    s = ex.unwrap(st, ex.ev(st, node.args[0]), node, "string")
+    sp = _libstr.do_split(ex, st, s, ex.strlit(" "))
+    return ex.seq_get(sp, z3.IntVal(0))
+
+
+def b_tag_has(self, ex, st, node):
+    e, n = ex.ev(st, node.args[0]), ex.ev(st, node.args[1])
+    return SV(BOOL, ex.uf("str_contains", STR.sort(), STR.sort(), z3.BoolSort())(
+        ex.uf("xml_tag", ELEM.sort(), STR.sort())(e.z), n.z))
+
+
+def b_descendants(self, ex, st, node):
+    e = ex.ev(st, node.args[0])
+    return SV(TSeq(ELEM), ex.uf("xml_iter3", ELEM.sort(), TSeq(ELEM).sort())(e.z))
+
+
+Lib.b_attr = b_attr
+Lib.b_first_token = b_first_token
+Lib.b_tag_has = b_tag_has
+Lib.b_descendants = b_descendants
+
+
+@method("abs:Elem", "get", stmt="lxml: element.get(name) is the attribute value, or None when absent")
+def _elem_get(ex, st, base, node, basenode):
+    n = ex.ev(st, node.args[0])
+    t = TOptT(STR)
+    return SV(t, ex.uf("xml_attr", ELEM.sort(), STR.sort(), t.sort())(base.z, n.z))
+
+
+@method("abs:Elem", "iter", stmt="lxml: element.iter(*tags) yields the matching descendants in document order")
+def _elem_iter(ex, st, base, node, basenode):
+    # only the three-query form of _parse_psm is given a named result (xml_iter3); other calls are opaque lists
+    key = "xml_iter3" if (len(node.args) == 1 and isinstance(node.args[0], ast.Starred)) else \
+        "xml_iter_" + str(abs(hash(ast.unparse(node))) % 100000)
+    r = SV(TSeq(ELEM), ex.uf(key, ELEM.sort(), TSeq(ELEM).sort())(base.z))
+    ex.assume(st, r.t.len(r.z) >= 0)
+    return r
+
+
+_orig_attribute3 = Lib.attribute
+
+
+def _attribute3(self, ex, st, base, attr, node):
+    if base.t == ELEM and attr == "tag":
+        return SV(STR, ex.uf("xml_tag", ELEM.sort(), STR.sort())(base.z))
+    return _orig_attribute3(self, ex, st, base, attr, node)
+
+
+Lib.attribute = _attribute3
+
+_orig_contains2 = _engine.Exec.contains
+
+
+def _contains2(self, st, container, item):
+    if container.t == STR and item.t == STR:
+        return self.uf("str_contains", STR.sort(), STR.sort(), z3.BoolSort())(container.z, item.z)
+    return _orig_contains2(self, st, container, item)
+
+
+_engine.Exec.contains = _contains2
+
+# int()/float() of an optional string: TypeError when None
+_orig_b_int = Lib.b_int
+_orig_b_float = Lib.b_float
+
+
+def _b_int2(self, ex, st, node):
+    a = ex.ev(st, node.args[0])
+    if isinstance(a.t, TOptT) and a.t.inner == STR:
+        none = a.t.is_none(a.z)
+        g = z3.And(*(st.guards + [none])) if st.guards else none
+        st.pending_exc.append((g, "TypeError"))
+        return SV(INT, ex.uf("int_of_str", STR.sort(), z3.IntSort())(a.t.val(a.z)))
+    return self._int_of_value(ex, st, a)
+
+
+def _int_of_value(self, ex, st, a):
+    if a.t in (INT, BOOL):
+        return SV(INT, ex.to_int(a))
+    if a.t == STR:
+        return SV(INT, ex.uf("int_of_str", STR.sort(), z3.IntSort())(a.z))
+    raise Unsupported("int() of %s" % a.t)
+
+
+def _b_float2(self, ex, st, node):
+    a = ex.ev(st, node.args[0])
+    if isinstance(a.t, TOptT) and a.t.inner == STR:
+        none = a.t.is_none(a.z)
+        g = z3.And(*(st.guards + [none])) if st.guards else none
+        st.pending_exc.append((g, "TypeError"))
+        return SV(REAL, ex.uf("float_of_str", STR.sort(), z3.RealSort())(a.t.val(a.z)))
+    if a.t in (INT, BOOL, REAL):
+        return SV(REAL, ex.to_real(a))
+    if a.t == STR:
+        return SV(REAL, ex.uf("float_of_str", STR.sort(), z3.RealSort())(a.z))
+    if isinstance(a.t, TAbs):
+        return SV(REAL, ex.uf("float_of_" + a.t.name, a.t.sort(), z3.RealSort())(a.z))
+    raise Unsupported("float() of %s" % a.t)
+
+
+Lib.b_int = _b_int2
+Lib._int_of_value = _int_of_value
+Lib.b_float = _b_float2
